@@ -751,7 +751,10 @@ def execute(case, keep_text=False):
                              step)
                         raise Stop()
                     try:        # (a streaming reader keeps its file open)
-                        dobj._spec_dict.close()
+                        import h5py
+                        for v_ in list(vars(dobj).values()):
+                            if isinstance(v_, h5py.File):
+                                v_.close()
                     except Exception:
                         pass
                     want = ref_interp(tab, op[3], T, P)
